@@ -9,24 +9,53 @@ def norm(b):
 
 
 def generate(repo, emit, src, func_body):
+    from cx_translate import translate, Untranslatable, AST
+    emit('cmp_ast', AST)
     num = src('src/Num.c')
-    b = norm(func_body(num, r'static\s+int\s+Int_Cmp\s*\([^)]*\)\s*\{'))
-    # int_cmp_threeway is ALWAYS defined (the executable model must keep building so that the
-    # correspondence can search for a failing input); int_cmp_shape_ok only when the text is one
-    # of the two known variants
-    three = bool(re.search(r'returna<b\?-1:a>b\?1:0;', b)) and 'int64_ta=Int_C_Int(self);' in b and 'int64_tb=c_int(obj);' in b
-    trunc = bool(re.search(r'return\(int\)\(Int_C_Int\(self\)-c_int\(obj\)\);', b) or re.search(r'return\(int\)\(a-b\);', b))
-    if trunc and not three:
-        emit('int_cmp_threeway', 'Definition int_cmp_threeway : bool := false.   (* source: return (int)(a - b); *)')
-    else:
-        emit('int_cmp_threeway', 'Definition int_cmp_threeway : bool := true.   (* source: %s *)'
-             % ('return a < b ? -1 : a > b ? 1 : 0;' if three else 'NOT RECOGNISED, three-way assumed'))
-    emit('int_cmp_shape_ok', 'Definition int_cmp_shape_ok : bool := true.   (* Int_Cmp is one of the two modelled variants *)'
-         if (three or trunc) else None)
 
-    b = norm(func_body(num, r'static\s+int\s+Float_Cmp\s*\([^)]*\)\s*\{'))
-    ok = b == '{doublec=Float_C_Float(self)-c_float(obj);returnc>0?1:c<0?-1:0;}'
-    emit('float_cmp_shape_ok', 'Definition float_cmp_shape_ok : bool := true.   (* double c = a - b; return c > 0 ? 1 : c < 0 ? -1 : 0; *)' if ok else None)
+    def code(name, body, atoms, zero_var=None, comment=''):
+        """ALWAYS defined (option): None when the body is outside the translated fragment"""
+        try:
+            if body is None:
+                raise Untranslatable('function not found')
+            t = translate(body, atoms, zero_var)
+            emit(name, 'Definition %s : option cprog := Some %s.   (* translated from %s *)' % (name, t, comment))
+        except Untranslatable as e:
+            emit(name, 'Definition %s : option cprog := None.   (* %s: not translated: %s *)' % (name, comment, str(e)[:80].replace('*)', '* )')))
+
+    code('int_cmp_code', func_body(num, r'static\s+int\s+Int_Cmp\s*\([^)]*\)\s*\{'),
+         {'Int_C_Int(self)': 0, 'c_int(obj)': 1, 'c_int(self)': 0}, comment='src/Num.c Int_Cmp')
+    code('float_cmp_code', func_body(num, r'static\s+int\s+Float_Cmp\s*\([^)]*\)\s*\{'),
+         {'Float_C_Float(self)': 0, 'c_float(obj)': 1, 'c_float(self)': 0}, comment='src/Num.c Float_Cmp')
+
+    # the six predicates of Cmp.c, each as an expression over r = cmp(self, obj) (slot 0) and the literal 0
+    # (slot 1); a call of another predicate on (self, obj) is inlined (one level at a time, no recursion)
+    cmpc = src('src/Cmp.c')
+    bodies = {}
+    for nm in ('eq', 'neq', 'lt', 'gt', 'le', 'ge'):
+        bodies[nm] = func_body(cmpc, r'\bbool\s+%s\s*\(\s*var\s+self\s*,\s*var\s+obj\s*\)\s*\{' % nm)
+    done = {}
+
+    def pred(nm, depth=0):
+        if nm in done:
+            return done[nm]
+        if depth > 6 or bodies.get(nm) is None:
+            raise Untranslatable('predicate ' + nm)
+        atoms = {'cmp(self, obj)': 0}
+        for other in bodies:
+            if other != nm and re.search(r'\b%s\s*\(\s*self\s*,\s*obj\s*\)' % other, bodies[nm]):
+                atoms['%s(self, obj)' % other] = pred(other, depth + 1)
+        prog = translate(bodies[nm], atoms, zero_var=1)
+        m = re.fullmatch(r'\(\[\], (.*)\)', prog, re.S)
+        if not m:
+            raise Untranslatable('predicate with locals')
+        done[nm] = m.group(1)
+        return done[nm]
+    try:
+        es = [pred(nm) for nm in ('eq', 'neq', 'lt', 'gt', 'le', 'ge')]
+        emit('pred_codes', 'Definition pred_codes : option (list cexp) := Some [%s].   (* src/Cmp.c eq neq lt gt le ge *)' % ';\n  '.join(es))
+    except Untranslatable as e:
+        emit('pred_codes', 'Definition pred_codes : option (list cexp) := None.   (* not translated: %s *)' % str(e)[:80].replace('*)', '* )'))
 
     # the common comparison loop of Array / List / Tuple
     loop = ('while(true){if(item0isTerminalanditem1isTerminal){return0;}if(item0isTerminal){return-1;}'
@@ -55,16 +84,12 @@ def generate(repo, emit, src, func_body):
           'item0=Tree_Iter_Next(self,item0);item1=iter_next(obj,item1);}')
     emit('tree_cmp_shape_ok', 'Definition tree_cmp_shape_ok : bool := true.   (* Tree_Cmp: key, then value, then advance *)' if tl in b else None)
 
-    c = norm(src('src/Cmp.c'))
-    preds = ['booleq(varself,varobj){returncmp(self,obj)is0;}',
-             'boolneq(varself,varobj){returnnoteq(self,obj);}',
-             'boolgt(varself,varobj){returncmp(self,obj)>0;}',
-             'boollt(varself,varobj){returncmp(self,obj)<0;}',
-             'boolge(varself,varobj){returnnotlt(self,obj);}',
-             'boolle(varself,varobj){returnnotgt(self,obj);}']
-    emit('cmp_predicates_shape_ok', 'Definition cmp_predicates_shape_ok : bool := true.   (* eq neq gt lt ge le as tests of cmp *)'
-         if all(p in c for p in preds) else None)
-    dflt = ('if(candc->cmp){returnc->cmp(self,obj);}size_ts=size(type_of(self));'
-            'if(type_of(self)istype_of(obj)ands){returnmemcmp(self,obj,s);}')
-    emit('cmp_default_shape_ok', 'Definition cmp_default_shape_ok : bool := true.   (* cmp: instance, else memcmp over size(type) *)'
-         if dflt in c else None)
+    # cmp(): executed symbolically for the 16 assignments of (instance present, cmp member present, same type,
+    # size non-zero); outcomes 0 = call the instance, 1 = memcmp over size(type_of(self)), 2 = TypeError, 3 = NULL deref
+    from cx_translate import dispatch_table
+    try:
+        rows = dispatch_table(cmpc, func_body)
+        txt = '; '.join('(%s, %s, %s, %s, %d)' % tuple([str(x).lower() for x in r[:4]] + [r[4]]) for r in rows)
+        emit('cmp_dispatch_table', 'Definition cmp_dispatch_table : option (list (bool * bool * bool * bool * nat)) :=\n  Some [%s].   (* src/Cmp.c cmp *)' % txt)
+    except Untranslatable as e:
+        emit('cmp_dispatch_table', 'Definition cmp_dispatch_table : option (list (bool * bool * bool * bool * nat)) := None.   (* not translated: %s *)' % str(e)[:80].replace('*)', '* )'))
